@@ -3,6 +3,7 @@ import TornadoModel.C29.Lemmas
 import TornadoModel.C29.RunLevel
 import TornadoModel.C29.RunCE
 import TornadoModel.C29.WireCL
+import TornadoModel.C29.RunVary
 namespace TornadoModel.C29
 open TornadoModel.C02
 open TornadoModel.C06 (Str normalize)
@@ -211,6 +212,20 @@ theorem wire_content_length_is_encoded_length (gz : Gz) (rq : Req) (ae : Option 
   exact clientParse_cl _ _ _ _ _ h1 (by
     show (_ || noBodyStatus (headStatus 200 prog)) = false
     rw [hm', headStatus_nb prog 200 (by decide) hops]; rfl)
+
+/-- **vary_on_every_response** (run level, NO side condition: every request shape incl. HEAD, every
+    Accept-Encoding, every program — rejected ops and the framework's error page, 304 / 204, handler-set Vary /
+    Content-Encoding / Content-Length, any gzip writer): whenever `write_headers` serialises a header block
+    (ghost `head`, set in the same step as the bytes are written), it contains a `Vary` line whose value lists
+    `Accept-Encoding`.  I.e. `transform_first_chunk` runs — on a fresh transform — before every head that is written. -/
+theorem vary_on_every_response (gz : Gz) (rq : Req) (ae : Option Str) (prog : List Op) (code : Nat)
+    (hs : List (Str × Str)) (hh : (run gz rq ae prog).base.conn.head = some (code, hs)) :
+    ∃ v, (nVary, v) ∈ hs ∧ Spec.variesOnAE v = true :=
+  (VI_runOps gz rq prog (init rq ae) (VI_init rq ae)).2 code hs hh
+
+/-! non-vacuity: an op that raises (invalid header value) leads to the framework's 500 page — a head is written -/
+example : ((run (fun _ => []) { method := .head, v11 := true, conn := .absent } (some vGzip)
+    [Op.setHeader [88] [10]]).base.conn.head.map (·.1)) = some 500 := by decide
 
 /-- **run_feed_is_writes** (no contract needed): in the same runs the transform is fed exactly the program's
     writes, as flushes followed by exactly one close, and the response body is the concatenation of what it emitted;
